@@ -200,23 +200,6 @@ Proof.
       change (ent_of 39) with ent_sq. apply esc_quoted_spec. reflexivity.
 Qed.
 
-Lemma xml_scan_spec l : forall s d, xml_scan l s d = (s + count 39 l, d + count 34 l).
-Proof.
-  induction l as [|c t IH]; intros s d; cbn [xml_scan count].
-  - apply pair_equal_spec; split; lia.
-  - destruct (c =? 34) eqn:E34; [rewrite IH; replace (c =? 39) with false by lia; apply pair_equal_spec; split; lia|].
-    destruct (c =? 39) eqn:E39; rewrite IH; apply pair_equal_spec; split; lia.
-Qed.
-
-Lemma xml_escape_form v : xml_escape_attr_val v = Ok (quoted (xml_quote v) v).
-Proof.
-  unfold xml_escape_attr_val, quoted, xml_quote. rewrite xml_scan_spec.
-  replace (0 + count 39 v) with (count 39 v) by lia. replace (0 + count 34 v) with (count 34 v) by lia.
-  destruct (count 39 v <? count 34 v).
-  - change (ent_of 39) with ent_sq. apply esc_quoted_spec. reflexivity.
-  - change (ent_of 34) with ent_dq. apply esc_quoted_spec. reflexivity.
-Qed.
-
 (* ---- reading the attribute back ------------------------------------------------------------------------ *)
 Lemma span_all p l c rest : forallb p l = true -> p c = false -> span p (l ++ c :: rest) = (l, c :: rest).
 Proof.
@@ -367,53 +350,6 @@ Proof.
     + apply decode_quoted; assumption.
 Qed.
 
-Lemma map_xnorm_esc q v : q = 34 \/ q = 39 -> map xnorm (esc_flat q (ent_of q) v) = esc_flat q (ent_of q) (map xnorm v).
-Proof.
-  intros Hq. induction v as [|c t IH]; [reflexivity|]. cbn [map]. rewrite !esc_flat_cons, map_app, IH.
-  f_equal. unfold xnorm at 2.
-  destruct Hq as [-> | ->]; destruct ((c =? 9) || (c =? 10) || (c =? 13)) eqn:E.
-  - replace (c =? 34) with false by lia. reflexivity.
-  - destruct (c =? 34) eqn:E2; [reflexivity|]. cbn [map]. unfold xnorm. rewrite E. reflexivity.
-  - replace (c =? 39) with false by lia. reflexivity.
-  - destruct (c =? 39) eqn:E2; [reflexivity|]. cbn [map]. unfold xnorm. rewrite E. reflexivity.
-Qed.
-
-Lemma count_xnorm q v : q = 34 \/ q = 39 -> count q (map xnorm v) = count q v.
-Proof.
-  intros Hq. induction v as [|c t IH]; [reflexivity|]. cbn [map count]. rewrite IH. unfold xnorm.
-  destruct Hq as [-> | ->]; destruct ((c =? 9) || (c =? 10) || (c =? 13)) eqn:E; try reflexivity.
-  - replace (c =? 34) with false by lia. reflexivity.
-  - replace (c =? 39) with false by lia. reflexivity.
-Qed.
-
-Lemma xml_quote_xnorm v : xml_quote (map xnorm v) = xml_quote v.
-Proof. unfold xml_quote. rewrite !count_xnorm by auto. reflexivity. Qed.
-
-Lemma xml_escape_roundtrip_proof : forall tbl v,
-  esc_tbl 34 ent_dq tbl -> esc_tbl 39 ent_sq tbl -> ~ In 0 v ->
-  let out := quoted (xml_quote v) v in
-  let val := quoted (xml_quote v) (map xnorm v) in
-  xml_escape_attr_val v = Ok out /\
-  xml_tag_tokens (attr_x out ++ [62]) = [TAttr (attr_x val) [120] (Some val); TClose [62]] /\
-  len val = len out /\
-  decode tbl (unquote val) = decode tbl (map xnorm v) /\
-  (map xnorm v = v -> val = out /\ decode tbl (unquote val) = decode tbl v).
-Proof.
-  intros tbl v T1 T2 H0 out val. split; [apply xml_escape_form|].
-  pose proof (xml_quote_cases v) as Hq. subst out val. set (q := xml_quote v) in *.
-  destruct (count_q_ent q Hq) as [Cq C0].
-  split.
-  - unfold xml_tag_tokens, quoted. rewrite <- map_xnorm_esc by exact Hq.
-    apply tokens_attr_close; [|reflexivity|cbn [attr_x app length]; lia].
-    apply xml_read_quoted; [exact Hq|apply count_esc_flat; exact Cq|].
-    apply count0_esc_flat; [exact C0|apply count0_notin; exact H0].
-  - split.
-    + unfold quoted. rewrite !len_cons, !len_app, !len_esc_flat. rewrite count_xnorm by exact Hq.
-      unfold len. rewrite map_length. reflexivity.
-    + split; [apply decode_quoted; assumption|].
-      intros E. rewrite E. split; [reflexivity|apply decode_quoted; assumption].
-Qed.
-
 Lemma xnorm_id_without_ws v : count 9 v = 0 -> count 10 v = 0 -> count 13 v = 0 -> map xnorm v = v.
 Proof.
   induction v as [|c t IH]; [reflexivity|]. cbn [count map]. intros H9 H10 H13.
@@ -422,15 +358,177 @@ Proof.
   unfold xnorm. destruct (c =? 9); [lia|]. destruct (c =? 10); [lia|]. destruct (c =? 13); [lia|]. reflexivity.
 Qed.
 
-(* the value "<TAB>" is written literally and read back as a space *)
-Lemma xml_escape_roundtrip_ws_refuted_proof :
-  exists v out val data, ~ In 0 v /\ xml_escape_attr_val v = Ok out /\
-    xml_tag_tokens (attr_x out ++ [62]) = [TAttr data [120] (Some val); TClose [62]] /\
-    decode std_refs (unquote val) <> decode std_refs v.
+
+(* ---- xml.EscapeAttrVal ------------------------------------------------------------------------------------------ *)
+Lemma xml_scan_spec l : forall s d w,
+  xml_scan l s d w = (s + count 39 l, d + count 34 l, w + (count 9 l + count 10 l + count 13 l)).
 Proof.
-  exists [9], [34; 9; 34], [34; 32; 34], (attr_x [34; 32; 34]).
-  split; [intros [H|[]]; discriminate|]. vm_compute. repeat split; discriminate.
+  induction l as [|c t IH]; intros s d w; cbn [xml_scan count].
+  - trip. lia.
+  - destruct (c =? 34) eqn:E34; [rewrite IH; replace (c =? 39) with false by lia; replace (c =? 9) with false by lia;
+      replace (c =? 10) with false by lia; replace (c =? 13) with false by lia; trip; lia|].
+    destruct (c =? 39) eqn:E39; [rewrite IH; replace (c =? 9) with false by lia;
+      replace (c =? 10) with false by lia; replace (c =? 13) with false by lia; trip; lia|].
+    destruct (c =? 9) eqn:E9; [cbn [orb]; rewrite IH; replace (c =? 10) with false by lia; replace (c =? 13) with false by lia; trip; lia|].
+    destruct (c =? 10) eqn:E10; [cbn [orb]; rewrite IH; replace (c =? 13) with false by lia; trip; lia|].
+    destruct (c =? 13) eqn:E13; cbn [orb]; rewrite IH; trip; lia.
 Qed.
+
+Definition xpiece (q c : Z) : list Z :=
+  if c =? q then ent_of q else if c =? 9 then ent_tab else if c =? 10 then ent_lf else if c =? 13 then ent_cr else [c].
+
+Lemma xesc_flat_cons q c t : xesc_flat q (c :: t) = xpiece q c ++ xesc_flat q t.
+Proof. reflexivity. Qed.
+
+Lemma len_xpiece q c : q = 34 \/ q = 39 ->
+  len (xpiece q c) = 1 + (if c =? q then 4 else 0) + (if c =? 9 then 3 else 0) + (if c =? 10 then 4 else 0) + (if c =? 13 then 4 else 0).
+Proof.
+  intros Hq. unfold xpiece. destruct (c =? q) eqn:Eq.
+  - replace (c =? 9) with false by lia. replace (c =? 10) with false by lia. replace (c =? 13) with false by lia.
+    destruct Hq as [-> | ->]; reflexivity.
+  - destruct (c =? 9) eqn:E9; [replace (c =? 10) with false by lia; replace (c =? 13) with false by lia; reflexivity|].
+    destruct (c =? 10) eqn:E10; [replace (c =? 13) with false by lia; reflexivity|].
+    destruct (c =? 13); reflexivity.
+Qed.
+
+Lemma len_xesc_flat q l : q = 34 \/ q = 39 ->
+  len (xesc_flat q l) = len l + 4 * count q l + 3 * count 9 l + 4 * count 10 l + 4 * count 13 l.
+Proof.
+  intros Hq. induction l as [|c t IH]; [reflexivity|].
+  rewrite xesc_flat_cons, len_app, IH, len_xpiece, len_cons by exact Hq. cbn [count].
+  destruct (c =? q); destruct (c =? 9); destruct (c =? 10); destruct (c =? 13); lia.
+Qed.
+
+Lemma xesc_loop_spec n q l : q = 34 \/ q = 39 -> forall seg out,
+  len out + len seg + len (xesc_flat q l) <= n ->
+  xesc_loop n q (ent_of q) l seg out = out ++ seg ++ xesc_flat q l.
+Proof.
+  intros Hq. induction l as [|c t IH]; intros seg out H.
+  - cbn [xesc_loop]. change (xesc_flat q []) with (@nil Z) in *. rewrite app_nil_r. apply app_cap_fits.
+    change (len (@nil Z)) with 0 in H. lia.
+  - rewrite xesc_flat_cons, len_app in H. cbn [xesc_loop]. rewrite xesc_flat_cons.
+    pose proof (len_nonneg (xesc_flat q t)) as Hn. pose proof (len_xpiece q c Hq) as Hp. unfold xpiece in *.
+    destruct (c =? q) eqn:Eq.
+    + pose proof (len_nonneg (ent_of q)).
+      rewrite (app_cap_fits n out seg) by lia. rewrite app_cap_fits by (rewrite len_app; lia).
+      rewrite IH by (rewrite !len_app; change (len (@nil Z)) with 0; lia).
+      cbn [app]. rewrite <- !app_assoc. reflexivity.
+    + destruct ((c =? 9) || (c =? 10) || (c =? 13)) eqn:Ews.
+      * set (e := if c =? 9 then ent_tab else if c =? 10 then ent_lf else ent_cr) in *.
+        assert (Ee : (if c =? 9 then ent_tab else if c =? 10 then ent_lf else if c =? 13 then ent_cr else [c]) = e).
+        { unfold e. destruct (c =? 9); [reflexivity|]. destruct (c =? 10); [reflexivity|]. destruct (c =? 13) eqn:E13; [reflexivity|].
+          cbn [orb] in Ews. discriminate Ews. }
+        rewrite Ee in *. pose proof (len_nonneg e).
+        rewrite (app_cap_fits n out seg) by lia. rewrite app_cap_fits by (rewrite len_app; lia).
+        rewrite IH by (rewrite !len_app; change (len (@nil Z)) with 0; lia).
+        cbn [app]. rewrite <- !app_assoc. reflexivity.
+      * replace (c =? 9) with false in * by lia. replace (c =? 10) with false in * by lia. replace (c =? 13) with false in * by lia.
+        change (len [c]) with 1 in H.
+        rewrite IH by (rewrite len_app; change (len [c]) with 1; lia). rewrite <- app_assoc. reflexivity.
+Qed.
+
+Lemma xml_escape_form v : xml_escape_attr_val v = Ok (xquoted (xml_quote v) v) /\
+  len (xquoted (xml_quote v) v) <= xml_reserved v.
+Proof.
+  pose proof (xml_quote_cases v) as Hq. unfold xml_escape_attr_val, xquoted, xml_reserved. rewrite xml_scan_spec.
+  replace (0 + count 39 v) with (count 39 v) by lia. replace (0 + count 34 v) with (count 34 v) by lia.
+  pose proof (count_nonneg 39 v). pose proof (count_nonneg 34 v). pose proof (count_nonneg 9 v).
+  pose proof (count_nonneg 10 v). pose proof (count_nonneg 13 v). pose proof (len_nonneg v).
+  pose proof (len_xesc_flat (xml_quote v) v Hq) as L. unfold xml_quote in *.
+  destruct (count 39 v <? count 34 v) eqn:E.
+  - split.
+    + unfold xesc_quoted. change ent_sq with (ent_of 39).
+      match goal with |- (if ?c then _ else _) = _ => replace c with false by lia end.
+      rewrite xesc_loop_spec; [|right; reflexivity|rewrite L; change (len [39]) with 1; change (len (@nil Z)) with 0; lia].
+      cbn [app]. rewrite len_cons, L.
+      match goal with |- (if ?c then _ else _) = _ => replace c with true by lia end. reflexivity.
+    + rewrite len_cons, len_app, L. change (len [39]) with 1. lia.
+  - split.
+    + unfold xesc_quoted. change ent_dq with (ent_of 34).
+      match goal with |- (if ?c then _ else _) = _ => replace c with false by lia end.
+      rewrite xesc_loop_spec; [|left; reflexivity|rewrite L; change (len [34]) with 1; change (len (@nil Z)) with 0; lia].
+      cbn [app]. rewrite len_cons, L.
+      match goal with |- (if ?c then _ else _) = _ => replace c with true by lia end. reflexivity.
+    + rewrite len_cons, len_app, L. change (len [34]) with 1. lia.
+Qed.
+
+(* escaping all four bytes at once = escaping them one after the other *)
+Lemma esc_flat_single q e c : esc_flat q e [c] = if c =? q then e else [c].
+Proof. unfold esc_flat. cbn [flat_map]. rewrite app_nil_r. reflexivity. Qed.
+
+Lemma xesc_sequential q v : q = 34 \/ q = 39 ->
+  xesc_flat q v = esc_flat 13 ent_cr (esc_flat 10 ent_lf (esc_flat 9 ent_tab (esc_flat q (ent_of q) v))).
+Proof.
+  intros Hq. induction v as [|c t IH]; [reflexivity|].
+  rewrite xesc_flat_cons, IH. change (c :: t) with ([c] ++ t). rewrite !esc_flat_app. f_equal.
+  rewrite esc_flat_single. unfold xpiece. destruct (c =? q) eqn:Eq.
+  - destruct Hq as [-> | ->]; reflexivity.
+  - rewrite esc_flat_single. destruct (c =? 9) eqn:E9; [reflexivity|].
+    rewrite esc_flat_single. destruct (c =? 10) eqn:E10; [reflexivity|].
+    rewrite esc_flat_single. destruct (c =? 13); reflexivity.
+Qed.
+
+Lemma decode_xesc tbl q v : esc_tbl 34 ent_dq tbl -> esc_tbl 39 ent_sq tbl ->
+  esc_tbl 9 ent_tab tbl -> esc_tbl 10 ent_lf tbl -> esc_tbl 13 ent_cr tbl -> q = 34 \/ q = 39 ->
+  decode tbl (xesc_flat q v) = decode tbl v.
+Proof.
+  intros T34 T39 T9 T10 T13 Hq. rewrite xesc_sequential by exact Hq.
+  rewrite (decode_esc 13 ent_cr tbl T13 _ _ (le_n _)).
+  rewrite (decode_esc 10 ent_lf tbl T10 _ _ (le_n _)).
+  rewrite (decode_esc 9 ent_tab tbl T9 _ _ (le_n _)).
+  destruct Hq as [-> | ->]; [apply (decode_esc 34 ent_dq tbl T34 _ _ (le_n _))|apply (decode_esc 39 ent_sq tbl T39 _ _ (le_n _))].
+Qed.
+
+Lemma count_flat_map c (f : Z -> list Z) l : (forall x, In x l -> count c (f x) = 0) -> count c (flat_map f l) = 0.
+Proof.
+  induction l as [|x t IH]; intros H; [reflexivity|]. cbn [flat_map]. rewrite count_app.
+  rewrite (H x (or_introl eq_refl)). rewrite IH by (intros y Hy; apply H; right; exact Hy). reflexivity.
+Qed.
+
+Lemma count_xesc_flat c q v : q = 34 \/ q = 39 ->
+  (c = q \/ c = 9 \/ c = 10 \/ c = 13 \/ (c = 0 /\ ~ In 0 v)) -> count c (xesc_flat q v) = 0.
+Proof.
+  intros Hq Hc. unfold xesc_flat. apply count_flat_map. intros x Hx.
+  assert (Hx0 : c = 0 -> x <> 0).
+  { intros -> ->. destruct Hc as [E|[E|[E|[E|[_ Hn]]]]]; try (destruct Hq; lia). exact (Hn Hx). }
+  destruct (x =? q) eqn:Exq.
+  - destruct Hq as [-> | ->]; destruct Hc as [->|[->|[->|[->|[-> _]]]]]; reflexivity.
+  - destruct (x =? 9) eqn:E9; [destruct Hq as [-> | ->]; destruct Hc as [->|[->|[->|[->|[-> _]]]]]; reflexivity|].
+    destruct (x =? 10) eqn:E10; [destruct Hq as [-> | ->]; destruct Hc as [->|[->|[->|[->|[-> _]]]]]; reflexivity|].
+    destruct (x =? 13) eqn:E13; [destruct Hq as [-> | ->]; destruct Hc as [->|[->|[->|[->|[-> _]]]]]; reflexivity|].
+    cbn [count]. destruct (x =? c) eqn:Exc; [|reflexivity]. exfalso.
+    assert (x = c) by lia. subst x. destruct Hc as [E|[E|[E|[E|[E _]]]]]; lia.
+Qed.
+
+Lemma xml_escape_roundtrip_proof : forall tbl v,
+  esc_tbl 34 ent_dq tbl -> esc_tbl 39 ent_sq tbl ->
+  esc_tbl 9 ent_tab tbl -> esc_tbl 10 ent_lf tbl -> esc_tbl 13 ent_cr tbl -> ~ In 0 v ->
+  let out := xquoted (xml_quote v) v in
+  xml_escape_attr_val v = Ok out /\ len out <= xml_reserved v /\
+  xml_tag_tokens (attr_x out ++ [62]) = [TAttr (attr_x out) [120] (Some out); TClose [62]] /\
+  decode tbl (unquote out) = decode tbl v.
+Proof.
+  intros tbl v T34 T39 T9 T10 T13 H0 out. destruct (xml_escape_form v) as [E L].
+  split; [exact E|]. split; [exact L|].
+  pose proof (xml_quote_cases v) as Hq. subst out. set (q := xml_quote v) in *.
+  set (body := xesc_flat q v).
+  assert (Cq : count q body = 0) by (apply count_xesc_flat; [exact Hq|left; reflexivity]).
+  assert (C0 : count 0 body = 0) by (apply count_xesc_flat; [exact Hq|right; right; right; right; split; [reflexivity|exact H0]]).
+  assert (Hid : map xnorm body = body).
+  { apply xnorm_id_without_ws; apply count_xesc_flat; try exact Hq; [right; left|right; right; left|right; right; right; left]; reflexivity. }
+  split.
+  - unfold xml_tag_tokens, xquoted. fold body.
+    apply tokens_attr_close; [|reflexivity|cbn [attr_x app length]; lia].
+    rewrite (xml_read_quoted q body Hq Cq C0). rewrite Hid. reflexivity.
+  - unfold xquoted. fold body. rewrite unquote_quoted by exact Hq. apply decode_xesc; assumption.
+Qed.
+
+Lemma std_refs_esc_tab : esc_tbl 9 ent_tab std_refs.
+Proof. split; [reflexivity|]. split; [lia|]. split; [reflexivity|]. intros x. reflexivity. Qed.
+Lemma std_refs_esc_lf : esc_tbl 10 ent_lf std_refs.
+Proof. split; [reflexivity|]. split; [lia|]. split; [reflexivity|]. intros x. reflexivity. Qed.
+Lemma std_refs_esc_cr : esc_tbl 13 ent_cr std_refs.
+Proof. split; [reflexivity|]. split; [lia|]. split; [reflexivity|]. intros x. reflexivity. Qed.
 
 Example html_escape_roundtrip_example :
   (* a"b'c"  with original quote ' : the single quote is cheaper; `'a"b&#39;c"'` *)
@@ -442,9 +540,11 @@ Example html_escape_roundtrip_example :
 Proof. vm_compute. repeat split. Qed.
 
 Example xml_escape_roundtrip_example :
-  xml_escape_attr_val [97; 34; 98] = Ok [39; 97; 34; 98; 39] /\
-  xml_escape_attr_val [39; 34] = Ok [34; 39; 38; 35; 51; 52; 59; 34] /\
-  xml_tag_tokens (attr_x [34; 39; 38; 35; 51; 52; 59; 34] ++ [62]) =
-    [TAttr (attr_x [34; 39; 38; 35; 51; 52; 59; 34]) [120] (Some [34; 39; 38; 35; 51; 52; 59; 34]); TClose [62]] /\
-  decode std_refs (unquote [34; 39; 38; 35; 51; 52; 59; 34]) = [39; 34].
+  (* a TAB double-quote b CR LF : single quotes are cheaper; TAB, CR, LF are written as references and read back *)
+  xml_escape_attr_val [97; 9; 34; 98; 13; 10] = Ok [39; 97; 38;35;57;59; 34; 98; 38;35;49;51;59; 38;35;49;48;59; 39] /\
+  xml_tag_tokens (attr_x [39; 97; 38;35;57;59; 34; 98; 38;35;49;51;59; 38;35;49;48;59; 39] ++ [62]) =
+    [TAttr (attr_x [39; 97; 38;35;57;59; 34; 98; 38;35;49;51;59; 38;35;49;48;59; 39]) [120]
+       (Some [39; 97; 38;35;57;59; 34; 98; 38;35;49;51;59; 38;35;49;48;59; 39]); TClose [62]] /\
+  decode std_refs (unquote [39; 97; 38;35;57;59; 34; 98; 38;35;49;51;59; 38;35;49;48;59; 39]) = [97; 9; 34; 98; 13; 10] /\
+  xml_reserved [97; 9; 34; 98; 13; 10] = 20.
 Proof. vm_compute. repeat split. Qed.
